@@ -26,6 +26,8 @@ UNIT = {
     'crate_attrs': ['#![feature(panic_internals)]'],
     'verus_args': ['--edition=2024'],
     'externs': {'slab': {'dir': 'slab-0.4.12', 'edition': '2018', 'features': ['std']}},
+    # vacuity twin: every contracted fn with a precondition gets `ensures false` appended and must fail
+    'controls': 'auto',
     'items': [
         ('@raw', 'pub mod slabspec {\n' + MOD_HEAD),
         ('@file', 'prelude_slab.rs'),
